@@ -76,9 +76,56 @@ func runC03(cs CaseSpec) *CaseResult {
 	sp := dagSpecFromCase(cs)
 	d := genDag(rng, cs.Seed*7919+int64(cs.Index), sp)
 	if shape := cs.Str("shape", ""); shape != "" {
-		sp.N = 4
+		sp.N = shapeCreators[shape]
 		d = genDagFromShape(rng, cs.Seed*7919+int64(cs.Index), shapeCorpus[shape], sp.N)
 		res.count("dag_from_shape_corpus", 1)
+	}
+	var stragglerIdx []int
+	if cs.I("straggler", 0) == 1 {
+		// many creators, one of them heard by only half of the others for a while:
+		// its witnesses are decided later than the rest of their round
+		sp2 := sp
+		sp2.Hidden = true
+		sp2.HiddenHalf = sp.N / 2
+		sp2.HideFrom = 0.1 + 0.3*rng.Float64()
+		sp2.HideTo = sp2.HideFrom + 0.3 + 0.3*rng.Float64()
+		sp2.Private = 0
+		sp2.NoOtherFirst = 0
+		d = genDag(rng, cs.Seed*7919+int64(cs.Index), sp2)
+		// workload search: prefer a DAG in which, at some moment of the creation-order
+		// execution, a round had more than a supermajority of famous witnesses while a
+		// witness that later turned out famous was still open and did not see a waiting event
+		for try := 0; try < int(cs.I("tries", 60)); try++ {
+			sp3 := sp2
+			sp3.HideFrom = 0.05 + 0.4*rng.Float64()
+			sp3.HideTo = sp3.HideFrom + 0.2 + 0.5*rng.Float64()
+			sp3.HiddenHalf = 1 + rng.Intn(sp.N-2)
+			sp3.Skew = try%3 != 0
+			sp3.Hidden = try%4 != 3
+			if try%2 == 1 {
+				sp3.Mute = true
+				sp3.MuteFrom = 0.1 + 0.5*rng.Float64()
+				sp3.MuteTo = sp3.MuteFrom + 0.05 + 0.2*rng.Float64()
+			}
+			cand := genDag(rng, cs.Seed*7919+int64(cs.Index)*1000+int64(try), sp3)
+			probe := execDag(cand, cand.Events, ExecOpts{Store: "inmem", Cache: len(cand.Events)*2 + 200, Batch: 1, ProbeStraggler: true})
+			hits := 0
+			if probe.Err == nil {
+				moments := stragglerMoments(probe)
+				hits = len(moments)
+				if hits > 0 {
+					stragglerIdx = moments
+				}
+			}
+			probe.close()
+			res.count("dag_straggler_search_candidates", 1)
+			if hits > 0 {
+				d = cand
+				res.count("dag_straggler_dags_with_sensitive_moment", 1)
+				break
+			}
+		}
+		res.count("dag_straggler_dags", 1)
 	}
 	if cs.I("coin", 0) == 1 && cs.Str("shape", "") == "" {
 		// workload search: keep generating split-view DAGs until one makes a fame
@@ -155,18 +202,33 @@ func runC03(cs CaseSpec) *CaseResult {
 		vs = append(vs, variant{"order", fmt.Sprintf("random linear extension #%d, in-memory", k), d.randomLinearExtension(rng, nil), ExecOpts{Store: "inmem", Cache: big, Batch: 1, ReadValues: true}, false})
 	}
 	for l := 0; l < sp.N && sp.N > 1; l++ {
-		if cs.I("coin", 0) != 1 && l >= 2 {
+		if cs.I("coin", 0) != 1 && cs.I("straggler", 0) != 1 && l >= 2 {
 			break
 		}
 		vs = append(vs, variant{"order", fmt.Sprintf("creator %d's events arrive as late as possible, in-memory", l), d.delayedExtension(rng, l), ExecOpts{Store: "inmem", Cache: big, Batch: 1, ReadValues: true}, false})
 	}
 	nAnc := 3
-	if cs.I("coin", 0) == 1 {
+	if cs.I("coin", 0) == 1 || cs.I("straggler", 0) == 1 {
 		nAnc = 10
 	}
 	for k := 0; k < nAnc; k++ {
 		z := len(d.Events)/3 + rng.Intn(len(d.Events)*2/3)
 		vs = append(vs, variant{"order", fmt.Sprintf("ancestry of event #%d first, then the rest, in-memory", z), d.ancestryFirst(z), ExecOpts{Store: "inmem", Cache: big, Batch: 1, ReadValues: true}, false})
+	}
+	// the events whose arrival created a sensitive moment in the creation-order run arrive last
+	seenZ := map[int]bool{}
+	for _, z0 := range stragglerIdx {
+		for _, z := range []int{z0, z0 - 1, z0 + 1} {
+			if z <= 0 || z >= len(d.Events) || seenZ[z] || len(seenZ) > 24 {
+				continue
+			}
+			seenZ[z] = true
+			vs = append(vs, variant{"order", fmt.Sprintf("event #%d (whose arrival left a round with an open witness) and its descendants arrive last, in-memory", z), d.descendantsLast(z), ExecOpts{Store: "inmem", Cache: big, Batch: 1, ReadValues: true}, false})
+		}
+	}
+	for k := 0; k < 2*nAnc; k++ {
+		z := len(d.Events)/6 + rng.Intn(len(d.Events)*4/6)
+		vs = append(vs, variant{"order", fmt.Sprintf("event #%d and its descendants arrive last, in-memory", z), d.descendantsLast(z), ExecOpts{Store: "inmem", Cache: big, Batch: 1, ReadValues: true}, false})
 	}
 	vs = append(vs, variant{"process", "same order, fresh instance (map iteration order, counters)", d.Events, ExecOpts{Store: "inmem", Cache: big, Batch: 1, ReadValues: true}, false})
 	vs = append(vs, variant{"store", "Badger, large cache, generation order", d.Events, ExecOpts{Store: "badger", Cache: big, Batch: 1, Dir: dir, ReadValues: true}, false})
@@ -191,6 +253,17 @@ func runC03(cs CaseSpec) *CaseResult {
 	nIdeals := 2
 	if cs.Tier == "thorough" {
 		nIdeals = 4
+	}
+	// prefixes of the creation order (downward closed by construction): the full DAG minus its last few events
+	for _, k := range []int{1, 2, 3, 5, 8, 13} {
+		if k >= len(d.Events)/2 {
+			continue
+		}
+		sub := map[string]bool{}
+		for _, e := range d.Events[:len(d.Events)-k] {
+			sub[e.Hash] = true
+		}
+		vs = append(vs, variant{"ideal", fmt.Sprintf("creation-order prefix without the last %d events", k), d.Events[:len(d.Events)-k], ExecOpts{Store: "inmem", Cache: big, Batch: 1, ReadValues: true}, true})
 	}
 	for k := 0; k < nIdeals; k++ {
 		sub := d.randomIdeal(rng)
@@ -257,16 +330,22 @@ func exportDag(d *Dag, k int) interface{} {
 func init() {
 	register(&PropDef{
 		ID: "C03", Level: "exploration", Engine: "dagcheck",
-		Rule: "one case = one seeded synthetic fork-free DAG (n=1..7 creators, 30-400 events, private chains, first events without other-parent, repeated other-parents; every fourth DAG is a split-view DAG found by a workload search for fame elections that last into a coin round, every eighth a fixed long-election shape with relabelled creators) executed by a reference real Hashgraph (generation order, in-memory, consensus after every event) and by ~14 variant executions (random linear extensions, one creator's events as late as possible, the ancestry of a random event first, fresh process state, Badger, cache sizes from the measured in-flight bound W, consensus batchings 2/5/17/all, random downward-closed sub-DAGs) that must give identical per-event round/witness/Lamport/fame/round-received and identical blocks (prefix for sub-DAGs); non-trivial: the reference produced >=3 blocks; distinct DAGs by (seed,index,last event hash)",
+		Rule: "one case = one seeded synthetic fork-free DAG (n=1..7 creators, 30-400 events, private chains, first events without other-parent, repeated other-parents; every fourth DAG is a split-view DAG found by a workload search for fame elections that last into a coin round, every eighth comes from a small corpus of fixed shapes (long fame election over a coin round with a late decider; seven unevenly active validators with a straggling witness) with relabelled creators and fresh keys, every eighth is a 7-10 creator DAG with uneven activity found by a workload search for moments at which a round has more than a supermajority of famous witnesses and one still open) executed by a reference real Hashgraph (generation order, in-memory, consensus after every event) and by ~14 variant executions (random linear extensions, one creator's events as late as possible, the ancestry of a random event first, a random event and its descendants last, creation-order prefixes without the last 1..13 events, fresh process state, Badger, cache sizes from the measured in-flight bound W, consensus batchings 2/5/17/all, random downward-closed sub-DAGs) that must give identical per-event round/witness/Lamport/fame/round-received and identical blocks (prefix for sub-DAGs); non-trivial: the reference produced >=3 blocks; distinct DAGs by (seed,index,last event hash)",
 		Assumptions: []string{"static validator set", "a variant that ends in a store-miss error with a cache below the default or with delayed consensus passes is outside the supported range and dropped (counted), only differing outputs are violations", "in-memory variants are never run with a cache below the event count"},
 		MinNontrivial: 8,
 		Cases: func(tier string, seed int64) []CaseSpec {
 			cs := dagCases(tier, seed, 40, 600)
 			for i := range cs {
 				if i%8 == 5 {
-					cs[i].S = map[string]string{"shape": "long-election"}
+					cs[i].S = map[string]string{"shape": []string{"long-election", "straggler-round"}[(i/8)%2]}
 					cs[i].P["coin"] = 1
 					cs[i].P["n"] = 4
+					continue
+				}
+				if i%8 == 1 {
+					cs[i].P["straggler"] = 1
+					cs[i].P["n"] = []int64{7, 8, 10, 7}[(i/8)%4]
+					cs[i].P["events"] = int64(180 + (i*17)%150)
 					continue
 				}
 				if i%4 == 3 {
